@@ -386,8 +386,22 @@ func c17O3(p *Prog, r *Report) {
 	if sf == nil {
 		return
 	}
+	// private helpers of generateConvertersRaw are part of it: same error discipline, and their calls count
+	var region []*ssa.Function
+	for _, rf := range p.Region("goverter.generateConvertersRaw") {
+		if hf := p.SSAFunc(rf); hf != nil {
+			region = append(region, hf)
+			if hf != sf {
+				errRuleOn(p, r, rf.Name(), nil, nil)
+			}
+		}
+	}
 	for _, st := range [][3]string{{modPath + "/comments", "", "ParseDocs"}, {modPath + "/config", "", "Parse"}, {modPath + "/generator", "", "Generate"}} {
-		if len(callsIn(sf, true, isObj(st[0], st[1], st[2]))) == 0 {
+		n := 0
+		for _, hf := range region {
+			n += len(callsIn(hf, true, isObj(st[0], st[1], st[2])))
+		}
+		if n == 0 {
 			r.Unresolved("call to " + st[2] + " in generateConvertersRaw")
 		}
 	}
@@ -542,7 +556,16 @@ func c17O5(p *Prog, r *Report, id string) {
 	} else {
 		r.Bad("goverter.writeFiles/WriteFile args", p.PosStr(wf[0].Pos()), "os.WriteFile is not called with (range key, range value): written path or content differs from what was generated")
 	}
-	if d := callTo(info, md[0].Args[0], "path/filepath", "", "Dir"); d != nil && isObjIdent(d.Args[0], keyObj) {
+	// the directory may be named first: dir := filepath.Dir(path)
+	dirArg := md[0].Args[0]
+	if id0, ok := ast.Unparen(dirArg).(*ast.Ident); ok {
+		if encl := p.enclosingFuncOf(md[0].Pos()); encl != nil {
+			if def := localDef(info, encl.Decl, info.ObjectOf(id0)); def != nil {
+				dirArg = def
+			}
+		}
+	}
+	if d := callTo(info, dirArg, "path/filepath", "", "Dir"); d != nil && isObjIdent(d.Args[0], keyObj) {
 		r.OK("goverter.writeFiles/MkdirAll arg", p.PosStr(md[0].Pos()), "directory = filepath.Dir(range key)")
 	} else {
 		r.Bad("goverter.writeFiles/MkdirAll arg", p.PosStr(md[0].Pos()), "os.MkdirAll is not called with filepath.Dir(range key)")
@@ -603,6 +626,9 @@ func c17O6(p *Prog, r *Report) {
 			if encl == "cli.Run" && name == "os.Exit" {
 				continue // examined below
 			}
+			if cs.Encl != nil && exitHelpers[cs.Encl.Obj.Origin()] && name == "os.Exit" {
+				continue // a verified error-exit helper of cli.Run (prints its argument to stderr, exits non-zero)
+			}
 			r.Bad(encl+"/"+name, p.PosStr(cs.Call.Pos()), "process exit outside cli.Run: exit status / file state no longer follow the single decision point")
 		}
 		if b, ok := cs.Callee.(*types.Builtin); ok && b.Name() == "recover" {
@@ -651,7 +677,13 @@ func c17O6(p *Prog, r *Report) {
 					// and before that a print to os.Stderr with the error
 					exitOK := func(in ssa.Instruction) bool {
 						c, ok := in.(ssa.CallInstruction)
-						if !ok || ssaCalleeObj(c) == nil || !isFunc(ssaCalleeObj(c), "os", "", "Exit") {
+						if !ok || ssaCalleeObj(c) == nil {
+							return false
+						}
+						if exitHelpers[ssaCalleeObj(c).Origin()] {
+							return true
+						}
+						if !isFunc(ssaCalleeObj(c), "os", "", "Exit") {
 							return false
 						}
 						k, ok := c.Common().Args[0].(*ssa.Const)
@@ -673,7 +705,19 @@ func c17O6(p *Prog, r *Report) {
 					// stderr print before exit
 					printOK := func(in ssa.Instruction) bool {
 						c, ok := in.(ssa.CallInstruction)
-						if !ok || ssaCalleeObj(c) == nil || objPkgPath(ssaCalleeObj(c)) != "fmt" || !strings.HasPrefix(ssaCalleeObj(c).Name(), "Fprint") {
+						if !ok || ssaCalleeObj(c) == nil {
+							return false
+						}
+						if exitHelpers[ssaCalleeObj(c).Origin()] {
+							// the helper prints its argument to stderr: it must be this error
+							for _, a := range c.Common().Args {
+								if flowsFrom(a, al) {
+									return true
+								}
+							}
+							return false
+						}
+						if objPkgPath(ssaCalleeObj(c)) != "fmt" || !strings.HasPrefix(ssaCalleeObj(c).Name(), "Fprint") {
 							return false
 						}
 						if !isGlobalLoad(c.Common().Args[0], "os", "Stderr") {
